@@ -148,6 +148,7 @@ Definition collect_count (src_size szB : N) : outcome N :=
 
 (* the bytes of the new Vec: the source bytes followed by zeros *)
 Definition pod_collect_to_vec (B : ty) (src : list N) : outcome (N * list N) :=
+  if sz B =? 0 then Ret (0, []) else   (* the guard added by the repair of the C16 finding *)
   n <- collect_count (N.of_nat (List.length src)) (sz B) ;;
   Ret (n, src ++ repeat 0 (N.to_nat (n * sz B) - List.length src)%nat).
 
